@@ -13,7 +13,7 @@ import copy
 import re
 
 from ..model import norm, walk_no_nested
-from ..astutil import short
+from ..astutil import short, call_name
 from ..report import fkey
 from .match import Matcher
 from .common import *
@@ -80,6 +80,34 @@ def _mentions(e, word):
                for x in ast.walk(e))
 
 
+def _pair_functions(ctx, _cache={}):
+    """Names of functions (in scope) that return a (source, target) pair built from mirror-image expressions -
+    directly, or through an attribute they assign such a pair to."""
+    key = id(ctx.prog)
+    if key in _cache:
+        return _cache[key]
+    out = set()
+    for fn in ctx.prog.all_functions():
+        if not fn.module.name.startswith(SCOPE) or isinstance(fn.node, ast.Lambda):
+            continue
+        pairs = {}
+        for st in walk_fn(fn):
+            if isinstance(st, ast.Assign) and isinstance(st.value, ast.Tuple) and len(st.value.elts) == 2:
+                a, b = st.value.elts
+                if _mentions(a, 'src') and _mentions(b, 'tgt') and mirror_equal(ctx, fn, a, b):
+                    pairs[norm(st.targets[0])] = True
+        for st in walk_fn(fn):
+            if isinstance(st, ast.Return) and st.value is not None:
+                v = st.value
+                if isinstance(v, ast.Tuple) and len(v.elts) == 2 and _mentions(v.elts[0], 'src') and \
+                        _mentions(v.elts[1], 'tgt') and mirror_equal(ctx, fn, v.elts[0], v.elts[1]):
+                    out.add(fn.name)
+                elif norm(v) in pairs:
+                    out.add(fn.name)
+    _cache[key] = out
+    return out
+
+
 def check_side_symmetry(ctx, rule='A23'):
     n = 0
     for fn in ctx.prog.all_functions():
@@ -103,6 +131,33 @@ def check_side_symmetry(ctx, rule='A23'):
                            'source element (index remapping, look-up, conversion) is done to the target element',
                            why if ok else f'`{norm(a)}` mirrored is not `{norm(b)}`: one side is treated '
                            f'differently')
+        # (iii) a value shared by both elements of a mirrored pair is side-neutral: it is not one element of a
+        # (source, target) pair returned by another function
+        pair_fns = _pair_functions(ctx)
+        for s in walk_fn(fn):
+            if not (isinstance(s, ast.Tuple) and len(s.elts) == 2 and isinstance(s.ctx, ast.Load)):
+                continue
+            a, b = s.elts
+            if not (_mentions(a, 'src') and _mentions(b, 'tgt') and not _mentions(a, 'tgt') and not _mentions(b, 'src')):
+                continue
+            shared = ({x.id for x in ast.walk(a) if isinstance(x, ast.Name)} &
+                      {x.id for x in ast.walk(b) if isinstance(x, ast.Name)})
+            for nm in sorted(shared):
+                defs = [d for d in walk_fn(fn) if isinstance(d, ast.Assign) and len(d.targets) == 1 and
+                        isinstance(d.targets[0], ast.Name) and d.targets[0].id == nm]
+                for d in defs:
+                    one_sided = [x for x in ast.walk(d.value) if isinstance(x, ast.Subscript) and
+                                 isinstance(x.slice, ast.Constant) and x.slice.value in (0, 1) and
+                                 isinstance(x.value, ast.Call) and call_name(x.value) in pair_fns]
+                    if not one_sided:
+                        continue
+                    n += 1
+                    ctx.touch(fn)
+                    ctx.ob(rule, fkey(fn, rule, f'shared:{nm}'), False, f'{fn.module.relpath}:{d.lineno}',
+                           f'`{nm}` is used for the source element and for the target element of a pair alike: it is '
+                           f'not taken from one side of a (source, target) pair',
+                           f'`{short(d, 80)}` takes element {one_sided[0].slice.value} of the pair returned by '
+                           f'{call_name(one_sided[0].value)}() and applies it to both sides')
         # (ii) sibling assignments
         assigns = {}
         for s in walk_fn(fn):
